@@ -18,6 +18,7 @@ func genScenario(t *rapid.T, kind string) LeaseScenario {
 	switch kind {
 	case "hold":
 		s.Periods = rapid.IntRange(3, vstat.Pick(6, 10)).Draw(t, "periods")
+		s.DelayPct = rapid.SampledFrom([]int{0, 0, 5, 10, 15}).Draw(t, "delayPct")
 		switch rapid.IntRange(0, 5).Draw(t, "faults") {
 		case 0: // fault free
 		case 1, 2, 3: // one failing renewal call, any k
@@ -29,9 +30,18 @@ func genScenario(t *rapid.T, kind string) LeaseScenario {
 			k := rapid.IntRange(1, 2*s.Periods-2).Draw(t, "k")
 			s.FailCas = []int{k, k + 2 + rapid.IntRange(0, 3).Draw(t, "gap")}
 		}
+		// the renewal scheme tolerates latency + failures only up to a point (retry after lease/8): keep the generated
+		// combination well inside it - "individual renewal attempts failed transiently" on a storage that answers
+		switch {
+		case len(s.FailCas) == 2 && s.FailCas[1] == s.FailCas[0]+1:
+			s.DelayPct = min(s.DelayPct, 5)
+		case len(s.FailCas) > 0:
+			s.DelayPct = min(s.DelayPct, 10)
+		}
 	case "death":
 		s.PhasePct = rapid.IntRange(0, 99).Draw(t, "phase")
 		s.Renewals = rapid.IntRange(0, 3).Draw(t, "renewals")
+		s.Waiters = rapid.SampledFrom([]int{1, 2, 2, 3}).Draw(t, "waiters")
 	case "unlockrace":
 		s.After = rapid.Bool().Draw(t, "after")
 	case "waithold":
@@ -51,7 +61,10 @@ func recordLease(s LeaseScenario, info LeaseInfo) {
 		cl = append(cl, "confirmed_only_after_retry")
 	}
 	if s.Kind == "hold" {
-		cl = append(cl, fmt.Sprintf("hold_injected_failures:%d", info.InjectedFailures))
+		cl = append(cl, fmt.Sprintf("hold_injected_failures:%d", info.InjectedFailures), fmt.Sprintf("hold_renewal_latency_pct:%d", s.DelayPct))
+	}
+	if s.Kind == "death" {
+		cl = append(cl, fmt.Sprintf("death_waiters:%d", max(1, s.Waiters)))
 	}
 	if s.Kind == "unlockrace" {
 		cl = append(cl, fmt.Sprintf("unlockrace_applied_before_unlock:%v", s.After))
@@ -123,6 +136,9 @@ func TestC05EveryK(t *testing.T) {
 	for _, after := range []bool{false, true} {
 		batch = append(batch, LeaseScenario{Kind: "unlockrace", LeaseMs: lease, After: after})
 	}
+	for _, pct := range []int{10, 15} { // a slow (but answering) storage: every renewal call takes 10-15% of the lease
+		batch = append(batch, LeaseScenario{Kind: "hold", LeaseMs: lease, Periods: 6, DelayPct: pct})
+	}
 	for _, w := range []int{6, 12, 22} {
 		batch = append(batch, LeaseScenario{Kind: "waithold", LeaseMs: lease, Wait10: w})
 	}
@@ -134,7 +150,7 @@ func TestC05EveryK(t *testing.T) {
 	runBatch(t, "TestC05EveryK", batch)
 	batch = nil
 	for _, ph := range []int{0, 25, 50, 75, 99} {
-		batch = append(batch, LeaseScenario{Kind: "death", LeaseMs: lease, PhasePct: ph, Renewals: 1})
+		batch = append(batch, LeaseScenario{Kind: "death", LeaseMs: lease, PhasePct: ph, Renewals: 1, Waiters: 1 + ph%3})
 	}
 	runBatch(t, "TestC05EveryK", batch)
 	vstat.For("C05").SetExhaustive("kth_renewal_failure", map[string]any{"periods": periods, "k_from": 1, "k_to": 2*periods - 1, "lease_ms": lease})
@@ -154,6 +170,10 @@ func TestC01LongWaiter(t *testing.T) {
 	for _, w := range vstat.Pick([]int{6, 12, 22}, []int{3, 6, 9, 12, 15, 22, 31}) {
 		batch = append(batch, LeaseScenario{Kind: "waithold", LeaseMs: 300, Wait10: w, OnlyExcl: true})
 	}
+	// an ownerless record expires under several waiters: they must take the lock one at a time
+	for i := 0; i < vstat.Pick(4, 12); i++ {
+		batch = append(batch, LeaseScenario{Kind: "death", LeaseMs: 300, PhasePct: 10 + 20*(i%5), Renewals: i % 2, Waiters: 2 + i%2, OnlyExcl: true})
+	}
 	infos := make([]LeaseInfo, len(batch))
 	viols := make([]*vstat.Violation, len(batch))
 	var wg sync.WaitGroup
@@ -167,7 +187,11 @@ func TestC01LongWaiter(t *testing.T) {
 	wg.Wait()
 	for i := range batch {
 		if v := viols[i]; v != nil {
-			v.Sig = "two-holders:" + v.Sig
+			if batch[i].Kind == "death" && v.Sig != "lease:two-holders-after-death" {
+				viols[i] = nil // anything else about a holder's death is C05's business
+			} else {
+				v.Sig = "two-holders:" + v.Sig
+			}
 		}
 		st.Report(t, "TestC01LongWaiter", batch[i], viols[i])
 		st.Case(true, vstat.Hash(batch[i]), func() any { return batch[i] }, "real_clock_long_waiter")
